@@ -263,10 +263,11 @@ def make_world(layout: str, seed: int = 0, *, sprp: str | None = None, rich: boo
     if layout == 'vitamin':
         # no model detail prop beyond the one name
         pass
-    w['other_game_lumps'] = [(b'dplt', 0, 0, bytes(rng.randrange(256) for _ in range(37)))]
+    # (flags other than bit 0 and a version above 32767: the directory fields are unsigned 16 bit)
+    w['other_game_lumps'] = [(b'dplt', 0x8002, 40000, bytes(rng.randrange(256) for _ in range(37)))]
     # opaque lumps (no structured view): name -> (version, bytes)
     w['opaque'] = {
-        'LIGHTING': (1, bytes(rng.randrange(256) for _ in range(301))),
+        'LIGHTING': (0x00020001, bytes(rng.randrange(256) for _ in range(301))),
         'OCCLUSION': (2, struct.pack('<iii', 0, 0, 0)),
         'WORLDLIGHTS': (1 if layout != 'v19' else 0, bytes(rng.randrange(256) for _ in range(88))),
         'AREAS': (0, struct.pack('<4i', 0, 0, 0, 1)),
@@ -282,7 +283,7 @@ def make_world(layout: str, seed: int = 0, *, sprp: str | None = None, rich: boo
     }
     w['lump_versions'] = {'FACES': 1, 'ORIGINALFACES': 0, 'LEAFS': 0 if layout == 'v19' else (2 if layout == 'chaos' else 1),
                           'FACES_HDR': 1, 'GAME_LUMP': 0}
-    w['map_revision'] = 4242 + seed
+    w['map_revision'] = 0x01020304 + seed
     return w
 
 
@@ -545,7 +546,7 @@ def build(w: dict, *, compress=False, game_sep: bool = True, dummy_game_lump: bo
             table[idx] = (len(out), len(payload), ver, 0)
         out += payload
     magic = b'FART' if lay == 'vitamin' else b'VBSP'
-    struct.pack_into('<4si', out, 0, magic, VERSION_OF[lay])
+    struct.pack_into('<4si', out, 0, magic, w.get('version_word', VERSION_OF[lay]))
     for idx in range(64):
         off, ln, ver, four = table[idx]
         if lay == 'l4d2':
@@ -626,3 +627,40 @@ def unrle_row(blob: bytes, start: int, nbytes: int) -> bytes:
             out += bytes(blob[i + 1])
             i += 2
     return bytes(out[:nbytes])
+
+
+def decode_file(data: bytes) -> dict:
+    """The whole header as the file states it, decoded without srctools: magic, version word, map revision,
+    per lump (version, compressed flag, decompressed bytes), and the game-lump directory (id, flags, version,
+    decompressed bytes) in file order."""
+    magic, version = struct.unpack_from('<4si', data, 0)
+    lumps = read_lumps(data)
+    out = {'magic': magic.decode('ascii', 'replace'), 'version': version, 'revision': lumps['_revision'],
+           'l4d2': version == 21 and data[8:12] == b'\0\0\0\0', 'lumps': {}, 'game': []}
+    for idx in range(64):
+        a, b, c, d = struct.unpack_from('<4i', data, 8 + 16 * idx)
+        four = d
+        name = LUMP_NAMES[idx]
+        ver, blob = lumps[name]
+        out['lumps'][name] = {'ver': ver, 'comp': four > 0, 'data': blob}
+    gver, gdir = lumps['GAME_LUMP']
+    goff = out['lumps']['GAME_LUMP']
+    # absolute file offsets: find where the directory starts in the file
+    idx = LUMP_INDEX['GAME_LUMP']
+    a, b, c, d = struct.unpack_from('<4i', data, 8 + 16 * idx)
+    start, length = (b, c) if out['l4d2'] else (a, b)
+    if length >= 4:
+        count = struct.unpack_from('<i', data, start)[0]
+        ents = [struct.unpack_from('<4sHHii', data, start + 4 + 16 * k) for k in range(count)]
+        for k, (gid, flags, ver, off, ln) in enumerate(ents):
+            if gid == b'\0\0\0\0':
+                continue
+            if flags & 1:
+                nxt = [e[3] for e in ents[k + 1:] if e[3] > off]
+                end = min(nxt) if nxt else start + length
+                blob = data[off:end]
+                blob = lzma_unpack(blob) if blob[:4] == b'LZMA' else blob
+            else:
+                blob = data[off:off + ln]
+            out['game'].append({'id': gid[::-1].decode('ascii', 'replace'), 'flags': flags, 'ver': ver, 'data': blob})
+    return out
